@@ -141,7 +141,16 @@ def _grid_relations(r: Rel, grid, ref):
     # Jacobian used as quadrature weight vs d/dchi of decompactify: FD truncation (step doubling estimate) +
     # FD rounding 2.1*dz_err/h with h = d/64 and dz_err <= eps (|z| + |J| d (4 + 1/d)) (arctanh near +-1)
     d = 1.0 - np.abs(ref["chi"])
-    tolJ = 4 * ref["errJ"] + 64 * EPS * (4.0 + 1.0 / d) * np.abs(ref["J"]) + 2.1 * 64 / d * EPS * np.abs(ref["z"])
+    # z(chi) is a sum of terms of the size of the tails that partly cancel near the wall: its rounding error is eps times the
+    # size of the terms (tails + wall thickness + |centre|), not eps |z| (with equal tails the two are indistinguishable; with
+    # the unequal tails of an out-of-equilibrium run the old bound was exceeded 1.2-3 times on the unchanged tree)
+    zmag = np.abs(ref["z"]) + float(getattr(grid, "tailLengthInside", 0.0)) + float(getattr(grid, "tailLengthOutside", 0.0)) \
+        + float(getattr(grid, "wallThickness", 0.0)) + abs(float(getattr(grid, "wallCenter", 0.0)))
+    # the step-doubling difference errJ is a SAMPLE of the finite-difference rounding noise once the truncation error is
+    # below it (relative 1e-11..1e-10 here), not a bound: take the largest relative sample within +-3 nodes, 8 times
+    rel = ref["errJ"] / np.abs(ref["J"])
+    relmax = np.array([np.max(rel[max(0, i - 3):i + 4]) for i in range(len(rel))])
+    tolJ = 8 * relmax * np.abs(ref["J"]) + 64 * EPS * (4.0 + 1.0 / d) * np.abs(ref["J"]) + 2.1 * 64 / d * EPS * zmag
     r.close("grid-remapped-jacobian", np.max(np.abs(np.asarray(grid.dxidchi) - ref["J"]) / tolJ), 0.0, 1.0)
 
 
@@ -190,7 +199,17 @@ def case_pressure(p: dict) -> dict:
         eom.__dict__.pop("action", None)
     r.tag("action-stubbed" if p.get("stub_action") else "action-real")
     # --- real code: re-map the grid to this wall, then one pressure evaluation with the shape kept
-    eom._updateGrid(WallParams(widths=widths.copy(), offsets=offsets.copy()), VMID)
+    if p.get("mfp"):
+        # the grid as a run WITH out-of-equilibrium particles sets it up: tails mfp*gamma inside, mfp/gamma outside (unequal);
+        # the pressure evaluation itself stays the equilibrium one
+        eom.includeOffEq, eom.meanFreePathScale = True, float(p["mfp"]) / Tn
+        try:
+            eom._updateGrid(WallParams(widths=widths.copy(), offsets=offsets.copy()), VMID)
+        finally:
+            eom.includeOffEq = False
+        r.tag("tails-unequal")
+    else:
+        eom._updateGrid(WallParams(widths=widths.copy(), offsets=offsets.copy()), VMID)
     grid = eom.grid
     tfun = _tfun(kind, T, widths[0])
     Tprof = tfun(np.asarray(grid.xiValues))
@@ -241,6 +260,12 @@ def pressure_cases(tier: str) -> list[dict]:
                                      stub_action=bool(tier == "quick" and wabs != 1.0))
                             c["id"] = f"{name},T={T:g},w={wabs:g},ratio={ratio:.4g},off={off:g},M={M}"
                             out.append(c)
+                            if wabs == 1.0 and off in (-1.0, 0.0, 1.0):
+                                # unequal tail lengths (grid of a run with out-of-equilibrium particles, mean free path 30/Tn and 100/Tn)
+                                for mfp in (30.0, 100.0):
+                                    d = dict(c, mfp=mfp)
+                                    d["id"] = c["id"] + f",tails=mfp{mfp:g}"
+                                    out.append(d)
     return out
 
 
